@@ -20,6 +20,7 @@ import Ajson.Proofs.Frame
 import Ajson.Proofs.CloneIso
 import Ajson.Proofs.Sides
 import Ajson.Proofs.CloneSound
+import Ajson.Proofs.CloneValue
 import Ajson.Model.Decode
 import Ajson.Spec.WF
 
@@ -111,6 +112,15 @@ theorem C14_any_history_on_the_copy {h : Heap} (hs : Struct h) (ha : Acyc h) (n 
   refine history_side es _ (fun x => h.size ≤ x) ?_ ?_ hnames m (Nat.not_le.mpr hm)
   · exact fun x hx => ⟨fun q hq => sp.newPar x hx q hq, fun y hy => sp.newKid x hx y hy⟩
   · exact fun x hx => ⟨fun q hq => Nat.not_le.mpr (sp.oldPar x (Nat.not_le.mp hx) q hq), fun y hy => Nat.not_le.mpr (sp.oldKid x (Nat.not_le.mp hx) y hy)⟩
+
+/-- **the copy denotes the same JSON value, and no value changes**: with `absVal` (Proofs/Refine — the plain data a node denotes, read
+off the types, scalar payloads and children maps of its subtree) the root of the copy denotes exactly what the original denotes — the
+same scalars, the same elements in the same order, the same members under the same keys, at every depth — and every node that existed
+before the call denotes what it denoted before -/
+theorem C14_equal_value {h : Heap} (hs : Struct h) (ha : Acyc h) (n : Nat) (hn : n < h.size) (F : Nat) :
+    absVal F (h.clone n).1 (h.clone n).2 = absVal F h n ∧
+    (∀ m : Nat, m < h.size → absVal F (h.clone n).1 m = absVal F h m) :=
+  clone_same_value hs ha n hn F
 
 /-- **the copy is a sound tree of its own**: after `Clone()` of any node of any sound acyclic heap the whole heap — the original,
 every other tree in play, and the copy — satisfies the structural invariant again and has no cycles: every node of the copy lists
